@@ -538,18 +538,15 @@ class Prop:
             for k, (r1, e1) in enumerate(zip(res["steps"], exp["steps"])):
                 if r1["shape"] != e1["shape"]:
                     return False, "step %d (%s): shape %s, expected %s" % (k, case["steps"][k]["kind"], r1["shape"], e1["shape"])
-                a = np.array(r1["dense"], dtype=np.float64); b = np.array(e1["dense"], dtype=np.float64)
-                scale = max(1.0, float(np.max(np.abs(b))) if b.size else 1.0)
-                if a.size and (not np.all(np.isfinite(a)) or np.max(np.abs(a - b)) > 1e-9 * scale):
-                    return False, "step %d (%s) on the same ANOVA tensor differs from the brute force by %g" % (
-                        k, case["steps"][k]["kind"], np.max(np.abs(a - b)))
+                if not close(r1["dense"], e1["dense"], 1e-9):
+                    return False, "step %d (%s) on the same ANOVA tensor differs from the brute force: %s vs %s" % (
+                        k, case["steps"][k]["kind"], r1["dense"][:8], e1["dense"][:8])
             return True, ""
         if res["shape"] != exp["shape"]:
             return False, "shape %s, expected %s" % (res["shape"], exp["shape"])
         a = np.array(res["dense"], dtype=np.float64); b = np.array(exp["dense"], dtype=np.float64)
-        scale = max(1.0, float(np.max(np.abs(b))) if b.size else 1.0)
-        if a.size and (not np.all(np.isfinite(a)) or np.max(np.abs(a - b)) > 1e-9 * scale):
-            return False, "values differ from the brute-force ANOVA by %g" % np.max(np.abs(a - b))
+        if not close(a, b, 1e-9):
+            return False, "values differ from the brute-force ANOVA: %s vs %s" % (res["dense"][:8], exp["dense"][:8])
         # laws checked on the implementation's own output
         x = dense_np(case["t"]); N = x.ndim
         ps = norm_marginals(case["marginals"], x.shape)
@@ -560,34 +557,34 @@ class Prop:
             for bb in itertools.product((0, 1), repeat=N):
                 src = tuple(slice(1, None) if bb[n] else slice(0, 1) for n in range(N))
                 terms[bb] = np.broadcast_to(a[src], x.shape)
-            if np.max(np.abs(sum(terms.values()) - x)) > tol * 2 ** N:
+            if not (np.max(np.abs(sum(terms.values()) - x), initial=0.0) <= tol * 2 ** N):
                 return False, "the terms of the ANOVA tensor do not sum to the function"
-            if abs(float(terms[(0,) * N].reshape(-1)[0]) - expect(x, ps)) > tol:
+            if not (abs(float(terms[(0,) * N].reshape(-1)[0]) - expect(x, ps)) <= tol):
                 return False, "the empty term is not the mean"
             for bb, f in terms.items():
                 for n in range(N):
                     if bb[n]:
                         mean_n = np.tensordot(f, ps[n], axes=([n], [0]))
-                        if mean_n.size and np.max(np.abs(mean_n)) > tol:
+                        if not (np.max(np.abs(mean_n), initial=0.0) <= tol):
                             return False, "term %s is not centred along mode %d" % (bb, n)
             var = {}
             for bb, f in terms.items():
                 var[bb] = expect(f * f, ps) - expect(f, ps) ** 2
                 for cc, g in terms.items():
-                    if bb < cc and abs(expect(f * g, ps)) > tol * max(1.0, float(np.max(np.abs(x)))):
+                    if bb < cc and not (abs(expect(f * g, ps)) <= tol * max(1.0, float(np.max(np.abs(x))))):
                         return False, "terms %s and %s are not orthogonal" % (bb, cc)
             tot = expect(x * x, ps) - expect(x, ps) ** 2
-            if abs(sum(var.values()) - tot) > 1e-9 * max(1.0, abs(tot)):
+            if not (abs(sum(var.values()) - tot) <= 1e-9 * max(1.0, abs(tot))):
                 return False, "term variances sum to %s, total variance %s" % (sum(var.values()), tot)
         if case["op"] == "term" and case.get("via") != "truncate_drop":
             S = case["subset"]
             for n in range(N):
                 if S[n]:
                     mean_n = np.tensordot(a, ps[n], axes=([n], [0]))
-                    if mean_n.size and np.max(np.abs(mean_n)) > tol:
+                    if not (np.max(np.abs(mean_n), initial=0.0) <= tol):
                         return False, "term is not centred along mode %d" % n
                 else:
-                    if np.max(np.abs(a - np.take(a, [0], axis=n))) > tol:
+                    if not (np.max(np.abs(a - np.take(a, [0], axis=n)), initial=0.0) <= tol):
                         return False, "term depends on variable %d outside its subset" % n
         return True, ""
 
